@@ -536,10 +536,12 @@ pub enum Op {
     // Class Operations
     // ═══════════════════════════════════════════════════════════════════════════════
     /// Create class: r[dst] = class with r[constructor] and r[super_class]
+    /// (has_heritage: the class has an `extends` clause, r[super_class] is its value)
     CreateClass {
         dst: Register,
         constructor: Register,
         super_class: Register,
+        has_heritage: bool,
     },
 
     /// Define class method on prototype
